@@ -1,8 +1,1530 @@
-//! C03 – not implemented yet.
-use mvlib::Ctx;
-use serde_json::Value;
+//! C03 – expressions evaluate as documented.
+//!
+//! Bounded-exhaustive enumeration of expression trees (all shapes with <= n binary operators, all
+//! 16 binary operators at every inner node, a leaf alphabet at every leaf, unary `!`/`-`/redundant
+//! parentheses as deviations), each rendered with parentheses dropped ONLY where the documented
+//! rules fix the reading, assembled by the real parser + code generator in batches of `.dword <e>`
+//! lines (`.byte`/`.word` for the truncation clause, `.text [enc] <e>` for string-valued trees) and
+//! compared with a reference evaluator written here (plain checked i64 arithmetic).
+//!
+//! Reference side decides the domain: intermediate overflow, divisor 0, shift count outside 0..31,
+//! negative shifted value, and ill-typed string/number mixtures are counted, never run.
+//!
+//! Text encodings – only what is uncontroversial is claimed, for the characters `a-z 0-9 space . , !`:
+//!   ascii (and no encoding keyword, documented default) = the bytes themselves;
+//!   petscii   = lowercase letters -> $41..$5a (the unshifted PETSCII letter block), everything else
+//!               of the restricted set is identical to ASCII ($20..$3f);
+//!   petscreen = screen codes: letters -> $01..$1a, $20..$3f unchanged (documented example:
+//!               `.text petscreen "abc"` emits $01,$02,$03).
 
-pub fn run(_ctx: &Ctx, _replay: Option<&Value>) -> i32 {
-    eprintln!("C03: engine not implemented yet");
-    2
+use crate::probe;
+use crate::util::{hex_bytes, par_each};
+use mvlib::{fnv_str, Ctx, Finding};
+use serde_json::{json, Value};
+use std::collections::{BTreeMap, HashMap, HashSet};
+use std::fmt::Write as _;
+use std::sync::atomic::{AtomicBool, AtomicU64, Ordering};
+use std::sync::{Mutex, RwLock};
+
+// ------------------------------------------------------------------------------------------------
+// alphabet
+
+const OPS: [&str; 16] = [
+    "*", "/", "%", "<<", ">>", "^", "+", "-", "==", "!=", ">=", "<=", ">", "<", "&&", "||",
+];
+const MUL: u8 = 0;
+const DIV: u8 = 1;
+const MOD: u8 = 2;
+const SHL: u8 = 3;
+const SHR: u8 = 4;
+const XOR: u8 = 5;
+const ADD: u8 = 6;
+const SUB: u8 = 7;
+const EQ: u8 = 8;
+const NE: u8 = 9;
+const GE: u8 = 10;
+const LE: u8 = 11;
+const GT: u8 = 12;
+const LT: u8 = 13;
+const AND: u8 = 14;
+const OR: u8 = 15;
+
+/// Documented precedence classes: 0 = `* / %`, 1 = `+ -`; every other operator is a class of its
+/// own because the documentation does not relate it to anything.
+fn op_class(op: u8) -> u8 {
+    match op {
+        MUL | DIV | MOD => 0,
+        ADD | SUB => 1,
+        o => 10 + o,
+    }
+}
+
+#[derive(Clone, Copy, Debug)]
+enum LV {
+    N(i64),
+    S(&'static str),
+    Pc,
+}
+
+struct LeafDef {
+    text: &'static str,
+    v: LV,
+    /// what kind of factor this is (first signature component when the leaf itself fails)
+    kind: &'static str,
+    /// spelling class
+    form: &'static str,
+}
+
+const W: i64 = 0x12345;
+const LABEL_ADDR: i64 = 0x2000;
+const BASE_PC: i64 = 0x2004;
+
+const fn leaf(text: &'static str, v: LV, kind: &'static str, form: &'static str) -> LeafDef {
+    LeafDef { text, v, kind, form }
+}
+
+const LEAVES: [LeafDef; 26] = [
+    leaf("0", LV::N(0), "literal", "dec"),                        // 0
+    leaf("1", LV::N(1), "literal", "dec"),                        // 1
+    leaf("2", LV::N(2), "literal", "dec"),                        // 2
+    leaf("7", LV::N(7), "literal", "dec"),                        // 3
+    leaf("255", LV::N(255), "literal", "dec"),                    // 4
+    leaf("256", LV::N(256), "literal", "dec"),                    // 5
+    leaf("$ff", LV::N(255), "literal", "hex"),                    // 6
+    leaf("$0100", LV::N(256), "literal", "hex-leading-zero"),     // 7
+    leaf("%101", LV::N(5), "literal", "bin"),                     // 8
+    leaf("007", LV::N(7), "literal", "dec-leading-zero"),         // 9
+    leaf("$0a", LV::N(10), "literal", "hex-leading-zero"),        // 10
+    leaf("true", LV::N(1), "literal", "bool"),                    // 11
+    leaf("false", LV::N(0), "literal", "bool"),                   // 12
+    leaf("c", LV::N(5), "ident", "const"),                        // 13
+    leaf("l", LV::N(LABEL_ADDR), "ident", "label"),               // 14
+    leaf("s", LV::S("ab"), "ident", "strconst"),                  // 15
+    leaf("t", LV::S("b"), "ident", "strconst"),                   // 16
+    leaf("*", LV::Pc, "pc", "star"),                              // 17
+    leaf("<w", LV::N(W & 255), "<name", "const>65535"),           // 18
+    leaf(">w", LV::N((W >> 8) & 255), ">name", "const>65535"),    // 19
+    leaf("defined(c)", LV::N(1), "defined()", "defined-name"),    // 20
+    leaf("defined(nope)", LV::N(0), "defined()", "undefined-name"), // 21
+    leaf("\"a{t}\"", LV::S("ab"), "string", "interpolated"),      // 22
+    leaf("%0110", LV::N(6), "literal", "bin-leading-zero"),       // 23
+    leaf("TRUE", LV::N(1), "literal", "bool-upper-case"),         // 24
+    leaf("u", LV::S("hello, world!"), "ident", "strconst"),       // 25 (text family only)
+];
+const L_S: u8 = 15;
+const L_T: u8 = 16;
+const L_U: u8 = 25;
+
+const PRELUDE: &str = ".const c = 5\n.const w = $12345\n.const s = \"ab\"\n.const t = \"b\"\n.const u = \"hello, world!\"\n* = $2000\nl:\n";
+
+/// leaves of the standard alphabet (thorough adds `TRUE`)
+fn all_leaves(thorough: bool) -> Vec<u8> {
+    let mut v: Vec<u8> = (0..24).collect();
+    if thorough {
+        v.push(24);
+    }
+    v
+}
+/// reduced set for n = 2 with deviations: `0 2 007 $0100 %101 c * >w`
+const QUICK_LEAVES: [u8; 8] = [0, 2, 9, 7, 8, 13, 17, 19];
+/// n = 3: `0 2 7 $0100`
+const DEEP_LEAVES: [u8; 4] = [0, 2, 3, 7];
+
+// ------------------------------------------------------------------------------------------------
+// trees
+
+#[derive(Clone, Debug, PartialEq, Eq, Hash)]
+enum T {
+    L(u8),
+    /// non-negative decimal literal (only produced while generalising a failing case)
+    Lit(i64),
+    /// string literal given by its source text between the quotes (may contain `{name}`)
+    SLit(String),
+    B(u8, Box<T>, Box<T>),
+    Not(Box<T>),
+    Neg(Box<T>),
+    /// explicit (redundant) parentheses
+    P(Box<T>),
+}
+
+fn is_atom(t: &T) -> bool {
+    matches!(t, T::L(_) | T::Lit(_) | T::SLit(_) | T::P(_))
+}
+
+fn render_into(t: &T, out: &mut String) {
+    match t {
+        T::L(i) => out.push_str(LEAVES[*i as usize].text),
+        T::Lit(v) => {
+            let _ = write!(out, "{}", v);
+        }
+        T::SLit(s) => {
+            out.push('"');
+            out.push_str(s);
+            out.push('"');
+        }
+        T::P(e) => {
+            out.push('(');
+            render_into(e, out);
+            out.push(')');
+        }
+        T::Not(e) | T::Neg(e) => {
+            out.push(if matches!(t, T::Not(_)) { '!' } else { '-' });
+            if is_atom(e) {
+                render_into(e, out);
+            } else {
+                // `!` and `-` are combined only through parentheses; a binary operand is
+                // parenthesised because the modifier applies to a factor
+                out.push('(');
+                render_into(e, out);
+                out.push(')');
+            }
+        }
+        T::B(op, l, r) => {
+            operand_into(l, *op, true, out);
+            out.push(' ');
+            out.push_str(OPS[*op as usize]);
+            out.push(' ');
+            operand_into(r, *op, false, out);
+        }
+    }
+}
+
+/// true iff the documentation fixes the reading of `child` as an operand of `op` without parentheses
+fn reading_fixed(child_op: u8, op: u8, left: bool) -> bool {
+    let (cc, pc) = (op_class(child_op), op_class(op));
+    if cc == 0 && pc == 1 {
+        return true; // `* / %` bind tighter than `+ -`
+    }
+    if left && (child_op == op || (cc == pc && pc <= 1)) {
+        return true; // operators of equal precedence associate to the left
+    }
+    false
+}
+
+fn operand_into(e: &T, op: u8, left: bool, out: &mut String) {
+    let paren = match e {
+        T::B(cop, _, _) => !reading_fixed(*cop, op, left),
+        _ => false,
+    };
+    if paren {
+        out.push('(');
+    }
+    render_into(e, out);
+    if paren {
+        out.push(')');
+    }
+}
+
+fn render(t: &T) -> String {
+    let mut s = String::with_capacity(32);
+    render_into(t, &mut s);
+    s
+}
+
+/// the rendering relies on a documented precedence / associativity rule somewhere
+fn relies_on_rule(t: &T) -> bool {
+    match t {
+        T::B(op, l, r) => {
+            let direct = |c: &T, left: bool| matches!(c, T::B(cop, _, _) if reading_fixed(*cop, *op, left));
+            direct(l, true) || direct(r, false) || relies_on_rule(l) || relies_on_rule(r)
+        }
+        T::Not(e) | T::Neg(e) | T::P(e) => relies_on_rule(e),
+        _ => false,
+    }
+}
+
+fn has_operator(t: &T) -> bool {
+    match t {
+        T::L(i) => !matches!(LEAVES[*i as usize].kind, "literal" | "ident" | "pc"),
+        T::Lit(_) => false,
+        T::SLit(s) => s.contains('{'),
+        _ => true,
+    }
+}
+
+fn uses_pc(t: &T) -> bool {
+    match t {
+        T::L(i) => matches!(LEAVES[*i as usize].v, LV::Pc),
+        T::B(_, l, r) => uses_pc(l) || uses_pc(r),
+        T::Not(e) | T::Neg(e) | T::P(e) => uses_pc(e),
+        _ => false,
+    }
+}
+
+fn children(t: &T) -> Vec<&T> {
+    match t {
+        T::B(_, l, r) => vec![l, r],
+        T::Not(e) | T::Neg(e) | T::P(e) => vec![e],
+        _ => vec![],
+    }
+}
+
+fn contains_any(t: &T, set: &HashSet<T>) -> bool {
+    if set.contains(t) {
+        return true;
+    }
+    match t {
+        T::B(_, l, r) => contains_any(l, set) || contains_any(r, set),
+        T::Not(e) | T::Neg(e) | T::P(e) => contains_any(e, set),
+        _ => false,
+    }
+}
+
+// ------------------------------------------------------------------------------------------------
+// reference evaluator (shares nothing with the repository)
+
+#[derive(Clone, Debug, PartialEq, Eq)]
+enum V {
+    N(i64),
+    S(String),
+}
+
+#[derive(Clone, Copy, Debug, PartialEq, Eq)]
+enum Skip {
+    Overflow,
+    DivZero,
+    ShiftCount,
+    ShiftNeg,
+    Type,
+}
+
+impl Skip {
+    fn key(&self) -> &'static str {
+        match self {
+            Skip::Overflow => "filtered_overflow",
+            Skip::DivZero => "filtered_divisor_zero",
+            Skip::ShiftCount => "filtered_shift_count",
+            Skip::ShiftNeg => "filtered_shift_of_negative",
+            Skip::Type => "filtered_string_number_mix",
+        }
+    }
+}
+
+fn interpolate(src: &str) -> Result<String, Skip> {
+    let mut out = String::new();
+    let mut rest = src;
+    while let Some(p) = rest.find('{') {
+        out.push_str(&rest[..p]);
+        let q = rest[p..].find('}').ok_or(Skip::Type)? + p;
+        let name = &rest[p + 1..q];
+        let v = match name {
+            "s" => LEAVES[L_S as usize].v,
+            "t" => LEAVES[L_T as usize].v,
+            "u" => LEAVES[L_U as usize].v,
+            _ => return Err(Skip::Type),
+        };
+        match v {
+            LV::S(x) => out.push_str(x),
+            _ => return Err(Skip::Type),
+        }
+        rest = &rest[q + 1..];
+    }
+    out.push_str(rest);
+    Ok(out)
+}
+
+fn b2i(b: bool) -> i64 {
+    if b {
+        1
+    } else {
+        0
+    }
+}
+
+fn eval(t: &T, pc: i64) -> Result<V, Skip> {
+    Ok(match t {
+        T::L(i) => match LEAVES[*i as usize].v {
+            LV::N(n) => V::N(n),
+            LV::S(s) => V::S(s.to_string()),
+            LV::Pc => V::N(pc),
+        },
+        T::Lit(n) => V::N(*n),
+        T::SLit(s) => V::S(interpolate(s)?),
+        T::P(e) => eval(e, pc)?,
+        T::Not(e) => match eval(e, pc)? {
+            V::N(n) => V::N(b2i(n == 0)),
+            V::S(_) => return Err(Skip::Type),
+        },
+        T::Neg(e) => match eval(e, pc)? {
+            V::N(n) => V::N(n.checked_neg().ok_or(Skip::Overflow)?),
+            V::S(_) => return Err(Skip::Type),
+        },
+        T::B(op, l, r) => {
+            let a = eval(l, pc)?;
+            let b = eval(r, pc)?;
+            match (a, b) {
+                (V::N(a), V::N(b)) => V::N(apply(*op, a, b)?),
+                (V::S(a), V::S(b)) => match *op {
+                    ADD => V::S(a + &b),
+                    EQ => V::N(b2i(a == b)),
+                    NE => V::N(b2i(a != b)),
+                    _ => return Err(Skip::Type),
+                },
+                _ => return Err(Skip::Type),
+            }
+        }
+    })
+}
+
+fn apply(op: u8, a: i64, b: i64) -> Result<i64, Skip> {
+    Ok(match op {
+        MUL => a.checked_mul(b).ok_or(Skip::Overflow)?,
+        DIV => {
+            if b == 0 {
+                return Err(Skip::DivZero);
+            }
+            a.checked_div(b).ok_or(Skip::Overflow)? // truncates toward zero
+        }
+        MOD => {
+            if b == 0 {
+                return Err(Skip::DivZero);
+            }
+            a.checked_rem(b).ok_or(Skip::Overflow)? // sign of the dividend
+        }
+        SHL | SHR => {
+            if !(0..=31).contains(&b) {
+                return Err(Skip::ShiftCount);
+            }
+            if a < 0 {
+                return Err(Skip::ShiftNeg);
+            }
+            if op == SHL {
+                a.checked_mul(1i64 << b).ok_or(Skip::Overflow)?
+            } else {
+                a / (1i64 << b)
+            }
+        }
+        XOR => a ^ b,
+        ADD => a.checked_add(b).ok_or(Skip::Overflow)?,
+        SUB => a.checked_sub(b).ok_or(Skip::Overflow)?,
+        EQ => b2i(a == b),
+        NE => b2i(a != b),
+        GE => b2i(a >= b),
+        LE => b2i(a <= b),
+        GT => b2i(a > b),
+        LT => b2i(a < b),
+        AND => b2i(a != 0 && b != 0),
+        OR => b2i(a != 0 || b != 0),
+        _ => unreachable!(),
+    })
+}
+
+// ------------------------------------------------------------------------------------------------
+// observation
+
+#[derive(Clone, Copy, Debug, PartialEq, Eq, Hash)]
+enum Dir {
+    Dword,
+    Word,
+    Byte,
+    /// 0 = no keyword, 1 = ascii, 2 = petscii, 3 = petscreen
+    Text(u8),
+}
+
+impl Dir {
+    fn text(&self) -> &'static str {
+        match self {
+            Dir::Dword => ".dword",
+            Dir::Word => ".word",
+            Dir::Byte => ".byte",
+            Dir::Text(0) => ".text",
+            Dir::Text(1) => ".text ascii",
+            Dir::Text(2) => ".text petscii",
+            Dir::Text(_) => ".text petscreen",
+        }
+    }
+    fn parse(s: &str) -> Option<Dir> {
+        [
+            Dir::Dword,
+            Dir::Word,
+            Dir::Byte,
+            Dir::Text(0),
+            Dir::Text(1),
+            Dir::Text(2),
+            Dir::Text(3),
+        ]
+        .into_iter()
+        .find(|d| d.text() == s)
+    }
+    fn fixed(&self) -> bool {
+        !matches!(self, Dir::Text(_))
+    }
+}
+
+fn encode(s: &str, enc: u8) -> Option<Vec<u8>> {
+    let mut out = vec![];
+    for ch in s.chars() {
+        let b = match ch {
+            'a'..='z' => match enc {
+                0 | 1 => ch as u8,
+                2 => 0x41 + (ch as u8 - b'a'),
+                _ => 1 + (ch as u8 - b'a'),
+            },
+            '0'..='9' | ' ' | '.' | ',' | '!' => ch as u8,
+            _ => return None, // outside the characters a claim is made about
+        };
+        out.push(b);
+    }
+    Some(out)
+}
+
+fn expected_bytes(v: &V, dir: Dir) -> Option<Vec<u8>> {
+    match (v, dir) {
+        (V::N(n), Dir::Dword) => Some(((*n as u64 & 0xffff_ffff) as u32).to_le_bytes().to_vec()),
+        (V::N(n), Dir::Word) => Some(((*n as u64 & 0xffff) as u16).to_le_bytes().to_vec()),
+        (V::N(n), Dir::Byte) => Some(vec![(*n as u64 & 0xff) as u8]),
+        (V::S(s), Dir::Text(e)) => encode(s, e),
+        _ => None,
+    }
+}
+
+#[derive(Clone, Debug)]
+struct Item {
+    tree: T,
+    dir: Dir,
+    pc: i64,
+    src: String,
+    expect: Vec<u8>,
+    value: V,
+}
+
+fn make_item(tree: &T, dir: Dir, pc: i64) -> Result<Item, Skip> {
+    let value = eval(tree, pc)?;
+    let expect = expected_bytes(&value, dir).ok_or(Skip::Type)?;
+    Ok(Item {
+        tree: tree.clone(),
+        dir,
+        pc,
+        src: render(tree),
+        expect,
+        value,
+    })
+}
+
+fn program(items: &[Item]) -> String {
+    let mut s = String::with_capacity(PRELUDE.len() + 16 + items.len() * 32);
+    s.push_str(PRELUDE);
+    let _ = writeln!(s, "* = ${:04x}", items.first().map(|i| i.pc).unwrap_or(BASE_PC));
+    for it in items {
+        s.push_str(it.dir.text());
+        s.push(' ');
+        s.push_str(&it.src);
+        s.push('\n');
+    }
+    s
+}
+
+#[derive(Clone, Debug, PartialEq, Eq)]
+enum Outcome {
+    Pass,
+    Mismatch(Vec<u8>),
+    Rejected(Vec<String>),
+    Panic { site: String, message: String },
+    /// every part passes alone, together they fail: (program, description)
+    Context(String, String),
+}
+
+impl Outcome {
+    fn kind(&self) -> &'static str {
+        match self {
+            Outcome::Pass => "pass",
+            Outcome::Mismatch(_) => "wrong-value",
+            Outcome::Rejected(_) => "rejected",
+            Outcome::Panic { .. } => "panic",
+            Outcome::Context(..) => "context",
+        }
+    }
+    fn describe(&self) -> String {
+        match self {
+            Outcome::Pass => "passes".into(),
+            Outcome::Mismatch(b) => format!("assembler produced {}", if b.is_empty() { "no bytes".to_string() } else { hex_bytes(b) }),
+            Outcome::Rejected(m) => format!("rejected: {:?}", m),
+            Outcome::Panic { site, message } => format!("panic at {}: {}", site, message),
+            Outcome::Context(_, d) => d.clone(),
+        }
+    }
+}
+
+/// result of running one program: per item observed bytes, or a whole-program failure
+enum Run {
+    Built { seg_start: i64, bytes: Vec<u8> },
+    Whole(Outcome),
+}
+
+fn run_program(text: &str) -> Run {
+    match probe::asm(text) {
+        Err(p) => Run::Whole(Outcome::Panic {
+            site: p.site,
+            message: p.message,
+        }),
+        Ok(b) => {
+            if !b.ok() {
+                let mut m: Vec<String> = b.all_diags().iter().map(|d| d.short()).collect();
+                if b.stop != probe::Stop::None {
+                    m.push(format!("pass loop stopped: {:?}", b.stop));
+                }
+                m.truncate(4);
+                return Run::Whole(Outcome::Rejected(m));
+            }
+            match b.seg("default").or(b.segs.first()) {
+                Some(s) => Run::Built {
+                    seg_start: s.start as i64,
+                    bytes: s.bytes.clone(),
+                },
+                None => Run::Built {
+                    seg_start: 0,
+                    bytes: vec![],
+                },
+            }
+        }
+    }
+}
+
+fn slice_at(seg_start: i64, bytes: &[u8], pc: i64, len: usize) -> &[u8] {
+    let off = pc - seg_start;
+    if off < 0 || off as usize > bytes.len() {
+        return &[];
+    }
+    let off = off as usize;
+    &bytes[off..(off + len).min(bytes.len())]
+}
+
+// ------------------------------------------------------------------------------------------------
+// engine state
+
+struct Failure {
+    item: Item,
+    outcome: Outcome,
+}
+
+struct G<'a> {
+    ctx: &'a Ctx,
+    /// subtrees known to fail from earlier (completed) families; trees containing one are not run
+    bad: RwLock<HashSet<T>>,
+    bad_nonempty: AtomicBool,
+    /// found in the running family, merged into `bad` when the family is done
+    staged_bad: Mutex<HashSet<T>>,
+    memo: Mutex<HashMap<(String, Dir, i64), Outcome>>,
+    isolated: AtomicU64,
+    capped: AtomicBool,
+    values: Mutex<HashSet<i64>>,
+    strings: Mutex<HashSet<String>>,
+}
+
+const MAX_ISOLATED: u64 = 20_000;
+const BATCH: usize = 200;
+const CHUNK: u64 = 4096;
+
+impl<'a> G<'a> {
+    fn single_outcome(&self, tree: &T, dir: Dir, pc: i64) -> Outcome {
+        let item = match make_item(tree, dir, pc) {
+            Ok(i) => i,
+            Err(_) => return Outcome::Pass, // outside the domain: no verdict
+        };
+        self.single_item(&item)
+    }
+
+    fn single_item(&self, item: &Item) -> Outcome {
+        let key = (item.src.clone(), item.dir, if uses_pc(&item.tree) { item.pc } else { 0 });
+        if let Some(o) = self.memo.lock().unwrap().get(&key) {
+            return o.clone();
+        }
+        self.ctx.count("isolation_runs");
+        let text = program(std::slice::from_ref(item));
+        let o = match run_program(&text) {
+            Run::Whole(o) => o,
+            Run::Built { seg_start, bytes } => {
+                // everything from the item's address to the end of the segment
+                let off = item.pc - seg_start;
+                let got: Vec<u8> = if off >= 0 && (off as usize) <= bytes.len() {
+                    bytes[off as usize..].to_vec()
+                } else {
+                    vec![]
+                };
+                if got == item.expect {
+                    Outcome::Pass
+                } else {
+                    Outcome::Mismatch(got)
+                }
+            }
+        };
+        self.memo.lock().unwrap().insert(key, o.clone());
+        o
+    }
+
+    /// Runs the items as one program; failures are narrowed down to single items.
+    fn check_items(&self, items: &[Item], top: bool, out: &mut Vec<Failure>) {
+        if items.is_empty() {
+            return;
+        }
+        if items.len() == 1 && !top {
+            let o = self.single_item(&items[0]);
+            if o != Outcome::Pass {
+                self.isolated.fetch_add(1, Ordering::Relaxed);
+                out.push(Failure {
+                    item: items[0].clone(),
+                    outcome: o,
+                });
+            }
+            return;
+        }
+        let text = program(items);
+        if !top {
+            self.ctx.count("bisect_runs");
+        }
+        let whole = match run_program(&text) {
+            Run::Whole(o) => Some(o),
+            Run::Built { seg_start, bytes } => {
+                let mut bad = vec![];
+                for (k, it) in items.iter().enumerate() {
+                    if slice_at(seg_start, &bytes, it.pc, it.expect.len()) != &it.expect[..] {
+                        bad.push(k);
+                    }
+                }
+                let last = items.last().unwrap();
+                let end_ok = seg_start + bytes.len() as i64 == last.pc + last.expect.len() as i64;
+                if bad.is_empty() && end_ok {
+                    if top {
+                        self.ctx.count_n("items_assembled_and_equal", items.len() as u64);
+                    }
+                    return;
+                }
+                if top {
+                    self.ctx.count("batches_with_wrong_bytes");
+                }
+                if !bad.is_empty() && items.iter().all(|i| i.dir.fixed()) && !self.capped.load(Ordering::Relaxed) {
+                    // fixed-size items: the mismatching lines are known; confirm each alone
+                    let mut confirmed = vec![];
+                    for k in &bad {
+                        let o = self.single_item(&items[*k]);
+                        if o == Outcome::Pass {
+                            confirmed.clear();
+                            break;
+                        }
+                        confirmed.push(Failure {
+                            item: items[*k].clone(),
+                            outcome: o,
+                        });
+                    }
+                    if !confirmed.is_empty() {
+                        self.isolated.fetch_add(confirmed.len() as u64, Ordering::Relaxed);
+                        out.extend(confirmed);
+                        return;
+                    }
+                }
+                None
+            }
+        };
+        if top && whole.is_some() {
+            self.ctx.count("batches_failed_to_assemble");
+        }
+        if self.isolated.load(Ordering::Relaxed) > MAX_ISOLATED {
+            if !self.capped.swap(true, Ordering::Relaxed) {
+                self.ctx.cap(format!(
+                    "more than {} failing expressions isolated; further failing batches are counted, not bisected",
+                    MAX_ISOLATED
+                ));
+            }
+            self.ctx.count("failing_batches_not_bisected");
+            return;
+        }
+        if items.len() == 1 {
+            let o = self.single_item(&items[0]);
+            if o != Outcome::Pass {
+                self.isolated.fetch_add(1, Ordering::Relaxed);
+                out.push(Failure {
+                    item: items[0].clone(),
+                    outcome: o,
+                });
+            }
+            return;
+        }
+        let before = out.len();
+        let mid = items.len() / 2;
+        self.check_items(&items[..mid], false, out);
+        self.check_items(&items[mid..], false, out);
+        if out.len() == before {
+            // both halves pass alone, together they fail
+            let d = match &whole {
+                Some(o) => o.describe(),
+                None => "bytes differ from the expectation".to_string(),
+            };
+            self.isolated.fetch_add(1, Ordering::Relaxed);
+            out.push(Failure {
+                item: items[mid].clone(),
+                outcome: Outcome::Context(text, format!("{} lines pass in two halves but fail together: {}", items.len(), d)),
+            });
+        }
+    }
+
+    fn natural_dir(v: &V) -> Dir {
+        match v {
+            V::N(_) => Dir::Dword,
+            V::S(_) => Dir::Text(0),
+        }
+    }
+
+    /// descends to the smallest subtree that fails when observed alone (same pc)
+    fn smallest(&self, tree: &T, pc: i64, outcome: Outcome) -> (T, Outcome) {
+        for c in children(tree) {
+            if let Ok(v) = eval(c, pc) {
+                let o = self.single_outcome(c, Self::natural_dir(&v), pc);
+                if o != Outcome::Pass {
+                    return self.smallest(c, pc, o);
+                }
+            }
+        }
+        (tree.clone(), outcome)
+    }
+
+    fn literal_for(v: &V) -> Option<T> {
+        match v {
+            V::N(n) if *n >= 0 => Some(T::Lit(*n)),
+            V::N(n) => n.checked_neg().map(|m| T::Neg(Box::new(T::Lit(m)))),
+            V::S(s) => Some(T::SLit(s.clone())),
+        }
+    }
+
+    fn value_class(v: &V) -> &'static str {
+        match v {
+            V::S(_) => "str",
+            V::N(0) => "0",
+            V::N(1) => "1",
+            V::N(n) if *n < 0 => "<0",
+            V::N(n) if *n <= 255 => "2..255",
+            V::N(_) => ">255",
+        }
+    }
+
+    fn form_of(t: &T) -> String {
+        match t {
+            T::L(i) => LEAVES[*i as usize].form.to_string(),
+            T::Lit(_) => "int".into(),
+            T::SLit(s) => if s.contains('{') { "interpolated".into() } else { "strlit".into() },
+            T::B(op, _, _) => format!("({})", OPS[*op as usize]),
+            T::Not(_) => "!x".into(),
+            T::Neg(e) => if matches!(**e, T::Lit(_)) { "int".into() } else { "-x".into() },
+            T::P(_) => "(x)".into(),
+        }
+    }
+
+    /// Signature of a failing smallest subtree: operator + operand classes, operands generalised
+    /// to plain literals of the same value wherever the failure survives that.
+    fn signature(&self, x: &T, pc: i64) -> String {
+        let fails = |t: &T| -> bool {
+            match eval(t, pc) {
+                Ok(v) => self.single_outcome(t, Self::natural_dir(&v), pc) != Outcome::Pass,
+                Err(_) => false,
+            }
+        };
+        let class = |orig: &T, generalised: bool| -> String {
+            let v = eval(orig, pc).unwrap_or(V::N(0));
+            if generalised {
+                match v {
+                    V::S(_) => "str".to_string(),
+                    _ => format!("int:{}", Self::value_class(&v)),
+                }
+            } else {
+                format!("{}:{}", Self::form_of(orig), Self::value_class(&v))
+            }
+        };
+        match x {
+            T::L(i) => {
+                let d = &LEAVES[*i as usize];
+                format!("expr:{}:{}", d.kind, d.form)
+            }
+            T::Lit(_) => "expr:literal:dec".into(),
+            T::SLit(s) => format!("expr:string:{}", if s.contains('{') { "interpolated" } else { "plain" }),
+            T::Not(e) | T::Neg(e) | T::P(e) => {
+                let opname = match x {
+                    T::Not(_) => "!",
+                    T::Neg(_) => "-x",
+                    _ => "()",
+                };
+                let mut gen = false;
+                if let Ok(v) = eval(e, pc) {
+                    if let Some(lit) = Self::literal_for(&v) {
+                        if lit != **e {
+                            let cand = match x {
+                                T::Not(_) => T::Not(Box::new(lit)),
+                                T::Neg(_) => T::Neg(Box::new(lit)),
+                                _ => T::P(Box::new(lit)),
+                            };
+                            gen = fails(&cand);
+                        } else {
+                            gen = true;
+                        }
+                    }
+                }
+                format!("expr:{}:{}", opname, class(e, gen))
+            }
+            T::B(op, l, r) => {
+                let mut cur_l = (**l).clone();
+                let mut cur_r = (**r).clone();
+                let mut gl = false;
+                let mut gr = false;
+                if let Ok(v) = eval(l, pc) {
+                    if let Some(lit) = Self::literal_for(&v) {
+                        if lit == cur_l {
+                            gl = true;
+                        } else if fails(&T::B(*op, Box::new(lit.clone()), Box::new(cur_r.clone()))) {
+                            gl = true;
+                            cur_l = lit;
+                        }
+                    }
+                }
+                if let Ok(v) = eval(r, pc) {
+                    if let Some(lit) = Self::literal_for(&v) {
+                        if lit == cur_r {
+                            gr = true;
+                        } else if fails(&T::B(*op, Box::new(cur_l.clone()), Box::new(lit.clone()))) {
+                            gr = true;
+                            cur_r = lit;
+                        }
+                    }
+                }
+                let _ = (&cur_l, &cur_r);
+                format!("expr:{}:{},{}", OPS[*op as usize], class(l, gl), class(r, gr))
+            }
+        }
+    }
+
+    fn case_json(items: &[Item], text: &str) -> Value {
+        json!({
+            "kind": "expr",
+            "files": {"main.asm": text},
+            "items": items.iter().map(|i| json!({
+                "directive": i.dir.text(), "expr": i.src, "pc": i.pc, "expected": hex_bytes(&i.expect),
+            })).collect::<Vec<_>>(),
+        })
+    }
+
+    fn report(&self, f: Failure) {
+        let it = &f.item;
+        if let Outcome::Context(text, d) = &f.outcome {
+            self.ctx.finding(Finding::new(
+                format!("expr:context:{}", it.dir.text().replace(' ', "-")),
+                format!("lines that pass alone fail together ({}); program:\n{}", d, text),
+                json!({"kind": "context", "files": {"main.asm": text}, "items": []}),
+            ));
+            return;
+        }
+        // 1. is it the directive (truncation / encoding) or the expression?
+        let nat = Self::natural_dir(&it.value);
+        let (sig, smallest_src) = if it.dir != nat && self.single_outcome(&it.tree, nat, it.pc) == Outcome::Pass {
+            let class = match &it.value {
+                V::N(_) => Self::value_class(&it.value).to_string(),
+                V::S(s) => {
+                    let mut c = String::new();
+                    if s.chars().any(|ch| ch.is_ascii_lowercase()) {
+                        c.push_str("letters");
+                    }
+                    if s.chars().any(|ch| ch.is_ascii_digit()) {
+                        c.push_str("+digits");
+                    }
+                    if s.chars().any(|ch| " .,!".contains(ch)) {
+                        c.push_str("+punct");
+                    }
+                    c
+                }
+            };
+            (format!("expr:{}:{}", it.dir.text().replace(' ', "-"), class), it.src.clone())
+        } else {
+            let (x, _o) = self.smallest(&it.tree, it.pc, f.outcome.clone());
+            self.staged_bad.lock().unwrap().insert(x.clone());
+            (self.signature(&x, it.pc), render(&x))
+        };
+        let vtext = match &it.value {
+            V::N(n) => format!("{}", n),
+            V::S(s) => format!("{:?}", s),
+        };
+        let what = format!(
+            "`{} {}` at pc ${:04x}: documented value {} => bytes {}; {} [{}]; smallest failing subtree: `{}`",
+            it.dir.text(),
+            it.src,
+            it.pc,
+            vtext,
+            hex_bytes(&it.expect),
+            f.outcome.describe(),
+            f.outcome.kind(),
+            smallest_src
+        );
+        let text = program(std::slice::from_ref(it));
+        self.ctx.finding(Finding::new(sig, what, Self::case_json(std::slice::from_ref(it), &text)));
+    }
+}
+
+// ------------------------------------------------------------------------------------------------
+// enumeration
+
+#[derive(Clone, Debug)]
+enum Sh {
+    L,
+    B(Box<Sh>, Box<Sh>),
+}
+
+fn shapes(n: usize) -> Vec<Sh> {
+    if n == 0 {
+        return vec![Sh::L];
+    }
+    let mut out = vec![];
+    for k in 0..n {
+        for l in shapes(k) {
+            for r in shapes(n - 1 - k) {
+                out.push(Sh::B(Box::new(l.clone()), Box::new(r)));
+            }
+        }
+    }
+    out
+}
+
+#[derive(Clone, Copy, Debug, PartialEq, Eq)]
+enum Dev {
+    None,
+    Not,
+    Neg,
+    Paren,
+    NotNeg,
+    NegNot,
+}
+
+fn apply_dev(d: Dev, t: T) -> T {
+    let b = Box::new;
+    match d {
+        Dev::None => t,
+        Dev::Not => T::Not(b(t)),
+        Dev::Neg => T::Neg(b(t)),
+        Dev::Paren => T::P(b(t)),
+        Dev::NotNeg => T::Not(b(T::Neg(b(t)))),
+        Dev::NegNot => T::Neg(b(T::Not(b(t)))),
+    }
+}
+
+#[derive(Clone, Debug)]
+enum DevMode {
+    NoDev,
+    /// the undeviated tree + one deviation of one of these kinds at one node
+    Single(Vec<Dev>),
+    /// every node independently takes one of these options (must contain `Dev::None`)
+    Full(Vec<Dev>),
+}
+
+#[derive(Clone, Copy, Debug, PartialEq, Eq)]
+enum DirMode {
+    /// `.dword` for integer valued trees, `.text` x 4 encodings for string valued trees
+    Natural,
+    /// `.byte` and `.word` (integer valued trees only)
+    Trunc,
+}
+
+struct Family {
+    name: String,
+    n: usize,
+    leaves: Vec<u8>,
+    dev: DevMode,
+    dirs: DirMode,
+    shapes: Vec<Sh>,
+}
+
+impl Family {
+    fn new(name: &str, n: usize, leaves: &[u8], dev: DevMode, dirs: DirMode) -> Family {
+        Family {
+            name: name.to_string(),
+            n,
+            leaves: leaves.to_vec(),
+            dev,
+            dirs,
+            shapes: shapes(n),
+        }
+    }
+    fn nodes(&self) -> usize {
+        2 * self.n + 1
+    }
+    fn dev_count(&self) -> u64 {
+        match &self.dev {
+            DevMode::NoDev => 1,
+            DevMode::Single(k) => 1 + (self.nodes() * k.len()) as u64,
+            DevMode::Full(o) => (o.len() as u64).pow(self.nodes() as u32),
+        }
+    }
+    fn size(&self) -> u64 {
+        self.shapes.len() as u64
+            * 16u64.pow(self.n as u32)
+            * (self.leaves.len() as u64).pow(self.n as u32 + 1)
+            * self.dev_count()
+    }
+    fn tree(&self, mut idx: u64) -> T {
+        let dc = self.dev_count();
+        let dev_idx = idx % dc;
+        idx /= dc;
+        let nl = self.leaves.len() as u64;
+        let mut leaves = [0u8; 8];
+        for k in 0..=self.n {
+            leaves[k] = self.leaves[(idx % nl) as usize];
+            idx /= nl;
+        }
+        let mut ops = [0u8; 8];
+        for k in 0..self.n {
+            ops[k] = (idx % 16) as u8;
+            idx /= 16;
+        }
+        let sh = &self.shapes[idx as usize];
+        let dev_at = |pos: usize| -> Dev {
+            match &self.dev {
+                DevMode::NoDev => Dev::None,
+                DevMode::Single(kinds) => {
+                    if dev_idx == 0 {
+                        Dev::None
+                    } else {
+                        let d = (dev_idx - 1) as usize;
+                        if d / kinds.len() == pos {
+                            kinds[d % kinds.len()]
+                        } else {
+                            Dev::None
+                        }
+                    }
+                }
+                DevMode::Full(opts) => {
+                    let mut d = dev_idx;
+                    for _ in 0..pos {
+                        d /= opts.len() as u64;
+                    }
+                    opts[(d % opts.len() as u64) as usize]
+                }
+            }
+        };
+        let (mut oi, mut li, mut pos) = (0usize, 0usize, 0usize);
+        build(sh, &ops, &leaves, &mut oi, &mut li, &mut pos, &dev_at)
+    }
+}
+
+fn build(sh: &Sh, ops: &[u8], leaves: &[u8], oi: &mut usize, li: &mut usize, pos: &mut usize, dev: &dyn Fn(usize) -> Dev) -> T {
+    let my = *pos;
+    *pos += 1;
+    let core = match sh {
+        Sh::L => {
+            let t = T::L(leaves[*li]);
+            *li += 1;
+            t
+        }
+        Sh::B(a, b) => {
+            let op = ops[*oi];
+            *oi += 1;
+            let l = build(a, ops, leaves, oi, li, pos, dev);
+            let r = build(b, ops, leaves, oi, li, pos, dev);
+            T::B(op, Box::new(l), Box::new(r))
+        }
+    };
+    apply_dev(dev(my), core)
+}
+
+#[derive(Default)]
+struct Local {
+    counters: BTreeMap<&'static str, u64>,
+    values: HashSet<i64>,
+    strings: HashSet<String>,
+}
+
+impl Local {
+    fn count(&mut self, k: &'static str) {
+        *self.counters.entry(k).or_insert(0) += 1;
+    }
+}
+
+struct Batch {
+    items: Vec<Item>,
+    pc: i64,
+}
+
+impl Batch {
+    fn new() -> Batch {
+        Batch {
+            items: Vec::with_capacity(BATCH),
+            pc: BASE_PC,
+        }
+    }
+}
+
+fn flush(g: &G, b: &mut Batch) {
+    if b.items.is_empty() {
+        return;
+    }
+    let mut hashes = Vec::with_capacity(b.items.len());
+    for it in &b.items {
+        g.ctx.eval(|| json!({"directive": it.dir.text(), "expr": it.src, "pc": it.pc, "expected": hex_bytes(&it.expect)}));
+        if has_operator(&it.tree) {
+            hashes.push(fnv_str(&format!("{} {}", it.dir.text(), it.src)));
+        }
+    }
+    g.ctx.nontrivial_many(hashes);
+    g.ctx.count("programs_assembled");
+    let mut fails = vec![];
+    g.check_items(&b.items, true, &mut fails);
+    for f in fails {
+        g.ctx.count("failing_expressions");
+        g.report(f);
+    }
+    b.items.clear();
+    b.pc = BASE_PC;
+}
+
+/// Adds the tree to the batch under `dir` at the batch's next address (domain decided there).
+fn add(g: &G, loc: &mut Local, b: &mut Batch, tree: &T, dir: Dir) {
+    match make_item(tree, dir, b.pc) {
+        Ok(item) => {
+            b.pc += item.expect.len() as i64;
+            b.items.push(item);
+            if b.items.len() >= BATCH {
+                flush(g, b);
+            }
+        }
+        Err(s) => loc.count(s.key()),
+    }
+}
+
+fn process_tree(g: &G, loc: &mut Local, dirs: DirMode, tree: &T, bd: &mut Batch, bw: &mut Batch, bt: &mut Batch) {
+    loc.count("trees_enumerated");
+    // domain and type at a representative address first (cheap, and gives the type)
+    let v = match eval(tree, bd.pc) {
+        Ok(v) => v,
+        Err(s) => {
+            loc.count(s.key());
+            return;
+        }
+    };
+    if g.bad_nonempty.load(Ordering::Relaxed) && contains_any(tree, &g.bad.read().unwrap()) {
+        loc.count("not_run_contains_subtree_that_already_failed_alone");
+        return;
+    }
+    loc.count("trees_in_domain");
+    if uses_pc(tree) {
+        loc.count("trees_using_current_pc");
+    }
+    if relies_on_rule(tree) {
+        loc.count("trees_rendered_relying_on_documented_precedence_or_associativity");
+    }
+    match &v {
+        V::N(n) => {
+            if *n < 0 {
+                loc.count("trees_with_negative_value");
+            }
+            if !(0..=0xffff_ffff).contains(n) {
+                loc.count("trees_value_outside_32_bits");
+            }
+            loc.values.insert(*n);
+            match dirs {
+                DirMode::Natural => add(g, loc, bd, tree, Dir::Dword),
+                DirMode::Trunc => {
+                    add(g, loc, bd, tree, Dir::Byte);
+                    add(g, loc, bw, tree, Dir::Word);
+                }
+            }
+        }
+        V::S(s) => {
+            if dirs == DirMode::Natural {
+                loc.count("trees_string_valued");
+                loc.strings.insert(s.clone());
+                for e in 0..4 {
+                    add(g, loc, bt, tree, Dir::Text(e));
+                }
+            }
+        }
+    }
+}
+
+fn finish_local(g: &G, loc: Local) {
+    for (k, v) in &loc.counters {
+        g.ctx.count_n(k, *v);
+    }
+    g.values.lock().unwrap().extend(loc.values);
+    g.strings.lock().unwrap().extend(loc.strings);
+}
+
+fn run_family(g: &G, fam: &Family) {
+    let total = fam.size();
+    let t0 = std::time::Instant::now();
+    let chunks: Vec<(u64, u64)> = (0..total)
+        .step_by(CHUNK as usize)
+        .map(|s| (s, (s + CHUNK).min(total)))
+        .collect();
+    par_each(chunks, |(lo, hi)| {
+        let mut loc = Local::default();
+        let (mut bd, mut bw, mut bt) = (Batch::new(), Batch::new(), Batch::new());
+        for idx in lo..hi {
+            let tree = fam.tree(idx);
+            process_tree(g, &mut loc, fam.dirs, &tree, &mut bd, &mut bw, &mut bt);
+        }
+        flush(g, &mut bd);
+        flush(g, &mut bw);
+        flush(g, &mut bt);
+        finish_local(g, loc);
+    });
+    merge_bad(g);
+    g.ctx.set(
+        &format!("family:{}", fam.name),
+        json!({"n": fam.n, "leaves": fam.leaves.iter().map(|l| LEAVES[*l as usize].text).collect::<Vec<_>>(),
+               "shapes": fam.shapes.len(), "deviation_variants_per_tree": fam.dev_count(),
+               "trees": total, "observed_through": if fam.dirs == DirMode::Natural { ".dword / .text x4" } else { ".byte + .word" },
+               "wall_s": t0.elapsed().as_secs_f64()}),
+    );
+}
+
+fn run_list(g: &G, name: &str, trees: &[T], dirs: DirMode) {
+    let mut loc = Local::default();
+    let (mut bd, mut bw, mut bt) = (Batch::new(), Batch::new(), Batch::new());
+    for t in trees {
+        process_tree(g, &mut loc, dirs, t, &mut bd, &mut bw, &mut bt);
+    }
+    flush(g, &mut bd);
+    flush(g, &mut bw);
+    flush(g, &mut bt);
+    finish_local(g, loc);
+    merge_bad(g);
+    g.ctx.set(&format!("family:{}", name), json!({"trees": trees.len()}));
+}
+
+fn merge_bad(g: &G) {
+    let staged: Vec<T> = g.staged_bad.lock().unwrap().drain().collect();
+    if !staged.is_empty() {
+        let mut bad = g.bad.write().unwrap();
+        bad.extend(staged);
+        g.bad_nonempty.store(true, Ordering::Relaxed);
+    }
+}
+
+/// `.text` with the whole restricted character set: literals, constants, interpolation, concatenation
+fn text_family() -> Vec<T> {
+    let lit = |s: &str| T::SLit(s.to_string());
+    let cat = |a: T, b: T| T::B(ADD, Box::new(a), Box::new(b));
+    let mut v = vec![
+        lit("abcdefghijklmnopqrstuvwxyz"),
+        lit("0123456789"),
+        lit(" .,!"),
+        lit("hello, world!"),
+        lit("a"),
+        lit("z9 ."),
+        T::L(L_U),
+        T::L(L_S),
+        lit("x{u}y"),
+        lit("{s}{t}"),
+        lit("{s}, {t}!"),
+        lit("{u}"),
+        lit("1{s}2{t}3"),
+        cat(T::L(L_U), lit(" 42.")),
+        cat(lit("q"), T::L(L_S)),
+        cat(cat(lit("q"), T::L(L_S)), lit(".")),
+        cat(lit("q"), T::P(Box::new(cat(T::L(L_S), lit("."))))),
+        cat(lit("{t}{t}"), lit("{s}")),
+        T::P(Box::new(lit("ok!"))),
+    ];
+    // every single character of the restricted set on its own
+    for ch in "abcdefghijklmnopqrstuvwxyz0123456789 .,!".chars() {
+        v.push(lit(&ch.to_string()));
+    }
+    // string comparisons observed as integers
+    for (a, b) in [("ab", "{s}"), ("ab", "a{t}"), ("b", "{s}"), ("hello, world!", "{u}"), ("a", "b")] {
+        v.push(T::B(EQ, Box::new(lit(a)), Box::new(lit(b))));
+        v.push(T::B(NE, Box::new(lit(a)), Box::new(lit(b))));
+    }
+    v
+}
+
+fn self_check() -> Result<(), String> {
+    // reference evaluator sanity (anchors taken from ordinary arithmetic, not from the repository)
+    let l = |i: u8| Box::new(T::L(i));
+    let checks: Vec<(T, i64)> = vec![
+        (T::B(DIV, Box::new(T::Neg(l(3))), l(2)), -3),
+        (T::B(MOD, Box::new(T::Neg(l(3))), l(2)), -1),
+        (T::B(MOD, l(3), Box::new(T::Neg(l(2)))), 1),
+        (T::B(SHL, l(1), l(3)), 128),
+        (T::B(SHR, l(5), l(2)), 64),
+        (T::B(XOR, l(4), l(3)), 248),
+        (T::L(18), 0x45),
+        (T::L(19), 0x23),
+        (T::Not(l(3)), 0),
+        (T::Not(l(0)), 1),
+    ];
+    for (t, want) in checks {
+        match eval(&t, BASE_PC) {
+            Ok(V::N(n)) if n == want => {}
+            other => return Err(format!("reference evaluator self-check failed on `{}`: {:?} != {}", render(&t), other, want)),
+        }
+    }
+    let r = |t: &T| render(t);
+    let t1 = T::B(ADD, l(1), Box::new(T::B(MUL, l(2), l(3))));
+    let t2 = T::B(MUL, Box::new(T::B(ADD, l(1), l(2))), l(3));
+    let t3 = T::B(SUB, l(1), Box::new(T::B(SUB, l(2), l(3))));
+    let t4 = T::B(SUB, Box::new(T::B(ADD, l(1), l(2))), l(3));
+    let t5 = T::B(ADD, Box::new(T::B(SHL, l(1), l(2))), l(3));
+    let t6 = T::B(EQ, Box::new(T::B(EQ, l(1), l(2))), l(3));
+    let t7 = T::B(EQ, l(1), Box::new(T::B(EQ, l(2), l(3))));
+    let t8 = T::Not(Box::new(T::Neg(l(3))));
+    for (t, want) in [
+        (&t1, "1 + 2 * 7"),
+        (&t2, "(1 + 2) * 7"),
+        (&t3, "1 - (2 - 7)"),
+        (&t4, "1 + 2 - 7"),
+        (&t5, "(1 << 2) + 7"),
+        (&t6, "1 == 2 == 7"),
+        (&t7, "1 == (2 == 7)"),
+        (&t8, "!(-7)"),
+    ] {
+        if r(t) != want {
+            return Err(format!("renderer self-check: got `{}` want `{}`", r(t), want));
+        }
+    }
+    if interpolate("x{s}y{t}").ok().as_deref() != Some("xabyb") {
+        return Err("interpolation self-check failed".into());
+    }
+    // the prelude must assemble and put `l` where the reference model assumes it
+    let text = format!("{}* = ${:04x}\n.dword l\n.dword *\n", PRELUDE, BASE_PC);
+    match run_program(&text) {
+        Run::Built { seg_start, bytes } => {
+            let got = slice_at(seg_start, &bytes, BASE_PC, 8).to_vec();
+            let mut want = (LABEL_ADDR as u32).to_le_bytes().to_vec();
+            want.extend(((BASE_PC + 4) as u32).to_le_bytes());
+            if got != want {
+                // not a machinery error: the leaves `l` / `*` will be reported by the enumeration
+                eprintln!("C03: note: prelude probe gives {} (model: {})", hex_bytes(&got), hex_bytes(&want));
+            }
+            Ok(())
+        }
+        Run::Whole(o) => Err(format!("prelude does not assemble: {}", o.describe())),
+    }
+}
+
+fn replay(case: &Value) -> i32 {
+    let text = case["files"]["main.asm"].as_str().unwrap_or("").to_string();
+    println!("replaying C03 case on the real assembler:\n{}---", text);
+    let mut failed = false;
+    let run = match probe::asm(&text) {
+        Ok(b) => {
+            println!(
+                "ok={} diagnostics={:?}",
+                b.ok(),
+                b.all_diags().iter().map(|d| d.short()).collect::<Vec<_>>()
+            );
+            for s in &b.segs {
+                println!("segment {} ${:04x}: {}", s.name, s.start, hex_bytes(&s.bytes));
+            }
+            if !b.ok() {
+                failed = true;
+            }
+            b.seg("default").or(b.segs.first()).map(|s| (s.start as i64, s.bytes.clone()))
+        }
+        Err(p) => {
+            println!("PANIC {} at {}", p.message, p.site);
+            failed = true;
+            None
+        }
+    };
+    if let Some(items) = case["items"].as_array() {
+        for it in items {
+            let pc = it["pc"].as_i64().unwrap_or(0);
+            let expected = it["expected"].as_str().unwrap_or("");
+            let dir = it["directive"].as_str().unwrap_or("");
+            let n = expected.split_whitespace().count();
+            let got = match &run {
+                Some((start, bytes)) if Dir::parse(dir).is_some() => hex_bytes(slice_at(*start, bytes, pc, n.max(1) + if items.len() == 1 { 64 } else { 0 })),
+                _ => "<nothing>".to_string(),
+            };
+            let ok = got == expected;
+            if !ok {
+                failed = true;
+            }
+            println!(
+                "`{} {}` at ${:04x}: documented {} | assembler {} => {}",
+                dir,
+                it["expr"].as_str().unwrap_or(""),
+                pc,
+                expected,
+                got,
+                if ok { "agrees" } else { "DIFFERS" }
+            );
+        }
+    }
+    if case["kind"] == "context" && !failed {
+        println!("(context case: the program assembles; compare with its parts)");
+    }
+    println!("{}", if failed { "case still fails" } else { "case passes" });
+    if failed {
+        1
+    } else {
+        0
+    }
+}
+
+pub fn run(ctx: &Ctx, replay_case: Option<&Value>) -> i32 {
+    if let Some(c) = replay_case {
+        return replay(c);
+    }
+    if let Err(e) = self_check() {
+        eprintln!("C03: MACHINERY: {}", e);
+        return 2;
+    }
+    let thorough = ctx.tier.is_thorough();
+    let g = G {
+        ctx,
+        bad: RwLock::new(HashSet::new()),
+        bad_nonempty: AtomicBool::new(false),
+        staged_bad: Mutex::new(HashSet::new()),
+        memo: Mutex::new(HashMap::new()),
+        isolated: AtomicU64::new(0),
+        capped: AtomicBool::new(false),
+        values: Mutex::new(HashSet::new()),
+        strings: Mutex::new(HashSet::new()),
+    };
+    let leaves = all_leaves(thorough);
+    let all5 = vec![Dev::Not, Dev::Neg, Dev::Paren, Dev::NotNeg, Dev::NegNot];
+    let three = vec![Dev::Not, Dev::Neg, Dev::Paren];
+    let full4 = vec![Dev::None, Dev::Not, Dev::Neg, Dev::Paren];
+
+    let mut fams: Vec<Family> = vec![];
+    // smallest first: a subtree that fails alone is not re-run inside larger trees
+    fams.push(Family::new("n0:leaves", 0, &leaves, DevMode::NoDev, DirMode::Natural));
+    fams.push(Family::new("n0:leaves:one-deviation", 0, &leaves, DevMode::Single(all5.clone()), DirMode::Natural));
+    fams.push(Family::new("n0:leaves:.byte/.word", 0, &leaves, DevMode::Single(three.clone()), DirMode::Trunc));
+    fams.push(Family::new("n1:all-leaves", 1, &leaves, DevMode::NoDev, DirMode::Natural));
+    if thorough {
+        fams.push(Family::new("n1:all-leaves:deviation-at-every-node", 1, &leaves, DevMode::Full(full4), DirMode::Natural));
+    }
+    fams.push(Family::new("n1:all-leaves:one-deviation", 1, &leaves, DevMode::Single(all5), DirMode::Natural));
+    fams.push(Family::new("n1:all-leaves:.byte/.word", 1, &leaves, DevMode::NoDev, DirMode::Trunc));
+    if thorough {
+        fams.push(Family::new("n2:all-leaves", 2, &leaves, DevMode::NoDev, DirMode::Natural));
+    }
+    fams.push(Family::new("n2:8-leaves:one-deviation", 2, &QUICK_LEAVES, DevMode::Single(three), DirMode::Natural));
+    if thorough {
+        fams.push(Family::new("n2:8-leaves:.byte/.word", 2, &QUICK_LEAVES, DevMode::NoDev, DirMode::Trunc));
+        fams.push(Family::new("n3:4-leaves", 3, &DEEP_LEAVES, DevMode::NoDev, DirMode::Natural));
+    }
+    let mut bound = BTreeMap::new();
+    for f in &fams {
+        run_family(&g, f);
+        let e = bound.entry(f.n).or_insert(0u64);
+        *e += f.size();
+    }
+    run_list(&g, "text:restricted-character-set", &text_family(), DirMode::Natural);
+
+    ctx.set("max_binary_operators", json!(fams.iter().map(|f| f.n).max().unwrap_or(0)));
+    ctx.set("trees_per_operator_count", json!(bound));
+    ctx.set("batch_size", json!(BATCH));
+    ctx.set("distinct_integer_values_expected", json!(g.values.lock().unwrap().len()));
+    ctx.set("distinct_string_values_expected", json!(g.strings.lock().unwrap().len()));
+    ctx.set("subtrees_failing_alone", json!(g.bad.read().unwrap().iter().map(render).collect::<Vec<_>>()));
+
+    ctx.finish(
+        "exploration",
+        "every expression tree of the stated families (all shapes x all 16 binary operators at every inner node x leaf alphabet at every leaf x unary/parenthesis deviations) whose reference evaluation stays inside the domain is rendered with parentheses dropped only where the documentation fixes the reading and assembled by the real parser+codegen (one evaluation = one `.dword/.word/.byte/.text <expr>` line, 200 lines per program, failing programs bisected to single lines); non-trivial = distinct (directive, expression text) containing at least one operator, modifier, function call, interpolation or parenthesis",
+        true,
+        &[
+            "reference evaluator: checked i64 arithmetic, `/` truncates toward zero, `%` takes the sign of the dividend, `^` on two's complement, comparisons and && || give 0/1, !x = 1 iff x == 0",
+            "domain decided on the reference side: no intermediate i64 overflow, divisor != 0, shift count 0..31, shifted value >= 0, operands of one operator both integers or both strings (strings only under + == !=), ! and unary - only on integers; everything else is counted and not run",
+            "parentheses are dropped only for `* / %` under `+ -`, for a left operand of the same class within {* / %} or {+ -}, and for a left operand with the identical operator; a modifier (! or -) applies to the factor that follows; `!-x` is never written",
+            "petscii/petscreen are claimed only for a-z 0-9 space . , ! (letters -> $41.. / $01.., rest unchanged); no encoding keyword = ascii as documented",
+            "leaf alphabet and depth bound as listed under family:*; values are fixed representatives, not all integers",
+            "a tree containing a subtree that already failed when observed alone is not run again (counted); one defect can mask another in the same tree",
+            "release arithmetic profile (overflow checks off), in-process mos-core",
+        ],
+    )
 }
